@@ -366,24 +366,42 @@ def run_check(P, tier, seed, replay=None):
 
 
 def setup():
-    ok, mlog = vlib.coq_make(timeout=7200)
-    if not ok:
-        print(mlog[-4000:])
-        return 1
+    """build everything that the claimed (READY) checks need; files of checks still under construction may fail"""
     rc = 0
     pd = os.path.join(vlib.ROOT, "runner", "props")
+    tgs = []
     for f in sorted(os.listdir(pd)):
         if f.startswith("C") and f.endswith(".py"):
+            try:
+                P = importlib.import_module("props." + f[:-3])
+            except Exception:  # noqa
+                continue
+            if getattr(P, "READY", False):
+                tgs += ["theories/Properties/%s.vo" % P.PID, "theories/Monitors/Mon_%s.vo" % P.PID] + list(getattr(P, "COQ_TARGETS", []))
+    ok, mlog = vlib.coq_make(timeout=3600, targets=sorted(set(tgs)) + ["-k"])
+    for f in sorted(os.listdir(pd)):
+        if not (f.startswith("C") and f.endswith(".py")):
+            continue
+        try:
             P = importlib.import_module("props." + f[:-3])
-            b, blog = vlib.go_build(P.MODULE, P.PKG, P.BIN, race=getattr(P, "RACE", False))
+        except Exception as ex:  # noqa
+            print("plug-in %s does not import: %r" % (f, ex))
+            continue
+        if not getattr(P, "READY", False):
+            continue
+        for t in ["theories/Properties/%s.vo" % P.PID, "theories/Monitors/Mon_%s.vo" % P.PID] + list(getattr(P, "COQ_TARGETS", [])):
+            if not os.path.exists(os.path.join(vlib.COQ, t)):
+                print("setup: %s was not built\n%s" % (t, mlog[-3000:]))
+                rc = 1
+        b, blog = vlib.go_build(P.MODULE, P.PKG, P.BIN, race=getattr(P, "RACE", False))
+        if b is None:
+            print(blog[-3000:])
+            rc = 1
+        for extra in getattr(P, "EXTRA_BUILDS", []):
+            b, blog = vlib.go_build(*extra[:3], race=extra[3] if len(extra) > 3 else False)
             if b is None:
                 print(blog[-3000:])
                 rc = 1
-            for extra in getattr(P, "EXTRA_BUILDS", []):
-                b, blog = vlib.go_build(*extra[:3], race=extra[3] if len(extra) > 3 else False)
-                if b is None:
-                    print(blog[-3000:])
-                    rc = 1
     return rc
 
 
